@@ -249,3 +249,263 @@ func checkAdvertised(rt *rapid.T, what, uri, wantID, wantHost, wantPort string, 
 		rt.Fatalf("%s URI %q: port %q, want %q", what, uri, pt, wantPort)
 	}
 }
+
+// ---------------------------------------------------------------------------
+// Registration histories: several registrations of one or two identities over
+// the same or different connections; the LATEST accepted registration of an
+// identity decides what is advertised for it, and nothing of another
+// identity or of an earlier registration leaks into it.
+
+type c19Reg struct {
+	srcAddr, srcPlain string
+	override          string
+	userClass, scheme string
+	ohClass           string
+	expHost, expPort  string
+	hostKnown         bool
+	wellFormed        bool
+}
+
+func genC19Source(rt *rapid.T) (addr, plain, class string) {
+	src := genC19Host().Filter(func(h c19Host) bool {
+		return h.class != "dns" && h.class != "unspec4" && h.class != "unspec6" && h.class != "empty"
+	}).Draw(rt, "source")
+	srcText := src.text
+	if src.class == "ipv6zone" {
+		srcText = "[" + src.plain + "]"
+	}
+	return srcText + ":" + fmt.Sprint(rapid.IntRange(1024, 65535).Draw(rt, "srcPort")), src.plain, src.class
+}
+
+func genC19Override(rt *rapid.T, self, other ident, srcAddr, srcPlain string) c19Reg {
+	r := c19Reg{srcAddr: srcAddr, srcPlain: srcPlain, userClass: "absent", scheme: "enode", ohClass: "absent", hostKnown: true}
+	oport := ""
+	var oh c19Host
+	oh.class = "absent"
+	if rapid.IntRange(0, 2).Draw(rt, "hasOverride") > 0 {
+		r.userClass = rapid.SampledFrom([]string{"own", "own", "own", "own", "other", "empty"}).Draw(rt, "user")
+		oh = genC19Host().Draw(rt, "ohost")
+		oport = rapid.SampledFrom([]string{"", "", ":30303", ":30304", ":1", ":65535"}).Draw(rt, "oport")
+		user := ""
+		switch r.userClass {
+		case "own":
+			user = self.nodeID + "@"
+		case "other":
+			user = other.nodeID + "@"
+		case "empty":
+			user = "@"
+		}
+		r.override = "enode://" + user + oh.text + oport
+	}
+	r.ohClass = oh.class
+	switch oh.class {
+	case "absent", "empty", "unspec6":
+		r.expHost = srcPlain
+	case "unspec4":
+		r.hostKnown = false
+	default:
+		r.expHost = oh.plain
+	}
+	r.expPort = "30303"
+	if oport != "" {
+		r.expPort = oport[1:]
+	}
+	r.wellFormed = r.userClass != "other" && r.hostKnown && r.expHost != ""
+	return r
+}
+
+func TestC19Reregistration(t *testing.T) {
+	rec := vt.For("C19")
+	rec.Rule("registration histories: 2-5 registrations of two host identities over the same or a new connection (new source address), each with or without a node-URI override, through vipnode_connect or vipnode_host, sometimes first as a client, on the memory and the on-disk badger driver; oracle after every step: the stored URI of the registering identity is decided by THIS registration alone (its own id, override-or-source host, override-or-30303 port), a refused registration leaves the stored record as it was, the other identity's record is untouched; at the end a client's vipnode_peer hands out each host under its own id and latest address; non-trivial = an identity registers twice with different resulting addresses, or two identities share a connection; distinct by driver + step classes")
+	rapid.Check(t, func(rt *rapid.T) {
+		ids := []ident{nodeIdent(0), nodeIdent(1)}
+		client := nodeIdent(2)
+		driver := rapid.SampledFrom([]string{"memory", "memory", "badger"}).Draw(rt, "driver")
+		var st store.Store
+		if driver == "memory" {
+			st = memory.New()
+		} else {
+			dir := tempDir("c19-")
+			defer removeAll(dir)
+			st = mustOpenBadger(rt, dir)
+			defer st.Close()
+		}
+		p := pool.New(st, nil)
+		srv := &jsonrpc2.Server{}
+		if err := srv.Register("vipnode_", p); err != nil {
+			rt.Fatal(err)
+		}
+		ctx, cancel := context.WithTimeout(context.Background(), 30*time.Second)
+		defer cancel()
+		type connInfo struct {
+			c          *conn
+			addr, host string
+		}
+		var conns []*connInfo
+		defer func() {
+			for _, ci := range conns {
+				ci.c.Close()
+			}
+		}()
+		newConn := func() *connInfo {
+			addr, plain, _ := genC19Source(rt)
+			hsvc := &HostSvc{}
+			ci := &connInfo{c: dial(srv, hsvc.server(), addr, p.CloseRemote), addr: addr, host: plain}
+			conns = append(conns, ci)
+			return ci
+		}
+		nonce := time.Now().UnixNano()
+		type want struct {
+			isHost     bool
+			host, port string
+			hostKnown  bool
+			uri        string // as stored after the latest accepted registration
+		}
+		latest := map[int]*want{}
+		var hist, sig []string
+		changed, shared := false, false
+		connIDs := map[*connInfo]map[int]bool{}
+		steps := rapid.IntRange(2, 5).Draw(rt, "steps")
+		for s := 0; s < steps; s++ {
+			who := rapid.IntRange(0, 1).Draw(rt, "who")
+			self, other := ids[who], ids[1-who]
+			var ci *connInfo
+			if len(conns) == 0 || rapid.IntRange(0, 2).Draw(rt, "newConn") == 0 {
+				ci = newConn()
+			} else {
+				ci = conns[rapid.IntRange(0, len(conns)-1).Draw(rt, "conn")]
+			}
+			reg := genC19Override(rt, self, other, ci.addr, ci.host)
+			endpoint := rapid.SampledFrom([]string{"connect", "connect", "host", "client"}).Draw(rt, "endpoint")
+			otherBefore, otherErr := st.GetNode(store.NodeID(other.nodeID))
+			selfBefore, selfErr := st.GetNode(store.NodeID(self.nodeID))
+			nonce++
+			var err error
+			switch endpoint {
+			case "connect", "client":
+				req := pool.ConnectRequest{VipnodeVersion: "verif", NodeURI: reg.override, NodeInfo: ethnode.UserAgent{Kind: ethnode.Geth, IsFullNode: endpoint == "connect", Network: 1}}
+				var resp pool.ConnectResponse
+				err = ci.c.agentSide.Call(ctx, &resp, "vipnode_connect", mustSign(self.key, "vipnode_connect", self.nodeID, nonce, req), self.nodeID, nonce, req)
+			case "host":
+				req := pool.HostRequest{Kind: "geth", NodeURI: reg.override}
+				var resp pool.HostResponse
+				err = ci.c.agentSide.Call(ctx, &resp, "vipnode_host", mustSign(self.key, "vipnode_host", self.nodeID, nonce, req), self.nodeID, nonce, req)
+			}
+			step := fmt.Sprintf("%s registers via %s over connection %d (source %s) override=%q -> err=%v", self.name, endpoint, indexOfConn(len(conns), func(i int) bool { return conns[i] == ci }), ci.addr, reg.override, err)
+			hist = append(hist, step)
+			sig = append(sig, fmt.Sprintf("%d:%s:%s:%s:%v", who, endpoint, reg.userClass, reg.ohClass, err == nil))
+			fail := func(format string, a ...interface{}) {
+				rt.Fatalf("%s\ndriver=%s history:\n  %s", fmt.Sprintf(format, a...), driver, strings.Join(hist, "\n  "))
+			}
+			if err != nil && strings.Contains(err.Error(), "failed to verify") {
+				fail("correctly signed registration refused by verification: %v", err)
+			}
+			// the other identity's record is untouched
+			otherAfter, otherErr2 := st.GetNode(store.NodeID(other.nodeID))
+			if (otherErr == nil) != (otherErr2 == nil) || (otherErr == nil && otherAfter.URI != otherBefore.URI) {
+				fail("registration of %s changed the stored address of %s: %q -> %q", self.name, other.name, otherBefore.URI, otherAfter.URI)
+			}
+			selfAfter, selfErr2 := st.GetNode(store.NodeID(self.nodeID))
+			if err != nil {
+				if endpoint != "client" && reg.wellFormed {
+					fail("well-formed registration refused: %v", err)
+				}
+				if (selfErr == nil) != (selfErr2 == nil) || (selfErr == nil && selfAfter.URI != selfBefore.URI) {
+					fail("a refused registration changed the stored address of %s: %q -> %q", self.name, selfBefore.URI, selfAfter.URI)
+				}
+				continue
+			}
+			if selfErr2 != nil {
+				fail("accepted but not stored: %v", selfErr2)
+			}
+			if connIDs[ci] == nil {
+				connIDs[ci] = map[int]bool{}
+			}
+			connIDs[ci][who] = true
+			if len(connIDs[ci]) > 1 {
+				shared = true
+			}
+			if endpoint == "client" {
+				// only hosts are advertised; what is stored for a client is not part of the property
+				latest[who] = &want{isHost: false}
+				continue
+			}
+			if reg.userClass == "other" {
+				fail("override naming another id was accepted: %q", reg.override)
+			}
+			if reg.hostKnown && reg.expHost == "" {
+				fail("registration with no determinable host was accepted, stored %q", selfAfter.URI)
+			}
+			func() {
+				defer func() {
+					if r := recover(); r != nil {
+						fmt.Printf("C19 history:\n  %s\n", strings.Join(hist, "\n  "))
+						panic(r)
+					}
+				}()
+				checkAdvertised(rt, "stored (after "+step+")", selfAfter.URI, self.nodeID, reg.expHost, reg.expPort, reg.hostKnown)
+			}()
+			if prev := latest[who]; prev != nil && prev.isHost && prev.hostKnown && reg.hostKnown && (prev.host != reg.expHost || prev.port != reg.expPort) {
+				changed = true
+			}
+			latest[who] = &want{isHost: true, host: reg.expHost, port: reg.expPort, hostKnown: reg.hostKnown, uri: selfAfter.URI}
+		}
+		// what a client is handed
+		nHosts := 0
+		for _, w := range latest {
+			if w.isHost {
+				nHosts++
+			}
+		}
+		if nHosts > 0 {
+			cc := dial(srv, nil, "198.51.100.9:4000", p.CloseRemote)
+			defer cc.Close()
+			creq := pool.ConnectRequest{VipnodeVersion: "verif", NodeInfo: ethnode.UserAgent{Kind: ethnode.Geth, IsFullNode: false, Network: 1}}
+			nonce++
+			var cresp pool.ConnectResponse
+			if err := cc.agentSide.Call(ctx, &cresp, "vipnode_connect", mustSign(client.key, "vipnode_connect", client.nodeID, nonce, creq), client.nodeID, nonce, creq); err != nil {
+				rt.Fatalf("client connect: %v", err)
+			}
+			preq := pool.PeerRequest{Num: 5}
+			var presp pool.PeerResponse
+			nonce++
+			if err := cc.agentSide.Call(ctx, &presp, "vipnode_peer", mustSign(client.key, "vipnode_peer", client.nodeID, nonce, preq), client.nodeID, nonce, preq); err != nil {
+				rt.Fatalf("client peer request failed although %d hosts are registered: %v\nhistory:\n  %s", nHosts, err, strings.Join(hist, "\n  "))
+			}
+			handed := map[string]string{}
+			for _, pn := range presp.Peers {
+				handed[string(pn.ID)] = pn.URI
+			}
+			for who, w := range latest {
+				if !w.isHost {
+					continue
+				}
+				uri, ok := handed[ids[who].nodeID]
+				if !ok {
+					rt.Fatalf("host %s is registered and connected but was not handed to the client (got %d peers)\nhistory:\n  %s", ids[who].name, len(presp.Peers), strings.Join(hist, "\n  "))
+				}
+				func() {
+					defer func() {
+						if r := recover(); r != nil {
+							fmt.Printf("C19 history:\n  %s\n", strings.Join(hist, "\n  "))
+							panic(r)
+						}
+					}()
+					checkAdvertised(rt, "handed to client for "+ids[who].name, uri, ids[who].nodeID, w.host, w.port, w.hostKnown)
+				}()
+			}
+		}
+		rec.Case(fmt.Sprintf("rereg|%s|%v", driver, sig), changed || shared, []string{"rereg", "rereg:" + driver, fmt.Sprintf("rereg:address-changed=%v", changed), fmt.Sprintf("rereg:shared-connection=%v", shared)}, func() interface{} {
+			return map[string]interface{}{"kind": "registration history", "driver": driver, "history": hist}
+		})
+	})
+}
+
+func indexOfConn(n int, is func(int) bool) int {
+	for i := 0; i < n; i++ {
+		if is(i) {
+			return i
+		}
+	}
+	return -1
+}
